@@ -187,6 +187,9 @@ pub fn run(ctx: &mut Ctx) {
                 if got_id != want_id {
                     ctx.violation(if got_id { "identity-false-positive" } else { "identity-false-negative" }, &format!("is_identical_to={} reference={} ({} vs {})", got_id, want_id, fam[i].0, fam[j].0), replay());
                 }
+                if (a.structural_digest() == b.structural_digest() && want_eq) != want_id {
+                    ctx.violation("structural-digest-disagrees", "structural_digest equality (among equivalent envelopes) disagrees with the reference identity", replay());
+                }
                 if got_pe != got_id {
                     ctx.violation("partialeq-differs", "== disagrees with is_identical_to", replay());
                 }
